@@ -9,6 +9,7 @@ mod engines {
 	pub mod chunker;
 	pub mod output;
 	pub mod encoding;
+	pub mod faults;
 	pub mod transcode;
 	pub mod input;
 	pub mod json;
@@ -63,12 +64,18 @@ fn main() {
 				props::c04::run(&mut out, &mut rng.fork(), thorough);
 			}
 			"C06" => {
+				engines::json::run(&mut out, &mut rng.fork(), thorough);
+				engines::tomlorder::run(&mut out, &mut rng.fork(), thorough);
 				props::c06::run(&mut out, &mut rng.fork(), thorough);
 			}
 			"C10" => {
+				engines::json::run(&mut out, &mut rng.fork(), thorough);
+				engines::input::run(&mut out, &mut rng.fork(), thorough);
 				props::c10::run(&mut out, &mut rng.fork(), thorough);
 			}
 			"C12" => {
+				engines::faults::run(&mut out, &mut rng.fork(), thorough);
+				engines::input::run(&mut out, &mut rng.fork(), thorough);
 				props::c12::run(&mut out, &mut rng.fork(), thorough);
 			}
 			"C03" => {
@@ -150,6 +157,19 @@ fn main() {
 		props::c09::probe(&util::unhex(&args[2]).expect("hex"), xtapi::Fmt::from_name(&args[3]).expect("format"), args.get(4).map(String::as_str));
 		return;
 	}
+	if args.len() >= 3 && args[1] == "debug-k4" {
+		debug_k4(&args[2]);
+		return;
+	}
 	eprintln!("usage: xtverif run <Cnn> <quick|thorough> <seed> <outdir>");
 	std::process::exit(3);
+}
+
+#[allow(dead_code)]
+pub fn debug_k4(hexs: &str) {
+	let b = util::unhex(hexs).unwrap();
+	let y = gen::read_docs(xtapi::Fmt::Msgpack, &b).unwrap();
+	println!("y        = {:?}", y[0]);
+	println!("written  = {:?}", y[0].toml_written_order());
+	println!("reorder  = {:?}", y[0].toml_reorder());
 }
